@@ -578,6 +578,41 @@ def corpus_format(ctx):
     d = sp[0][1] if len(sp) == 1 else None
     nx = next_calls_of(rfa, sp[0][0]) if sp else []
     ok = d == "\t" and len(nx) == 3
+    once = [(b, t) for b, t in rfa.calls() if (callee_of(t) or {}).get("name") == "split_once" and len(t["args"]) == 2]
+
+    def part_index(op):
+        """which half of the `split_once` pair an operand is taken from (0 / 1), else None"""
+        pl = op_place(op)
+        for _ in range(14):
+            if pl is None:
+                return None
+            for e in pl["p"]:
+                if isinstance(e, dict) and e.get("o") == "(tuple)" and "f" in e:
+                    return e["f"]
+            dd_ = rfa.single_def(pl["l"])
+            if dd_ is None:
+                return None
+            if dd_[2] == "call":
+                if dd_[3]["args"] and (callee_of(dd_[3]) or {}).get("name") in (
+                        "to_string", "to_owned", "into", "from", "clone", "deref", "as_ref"):
+                    pl = op_place(dd_[3]["args"][0])
+                    continue
+                return None
+            rv_ = dd_[3]
+            pl = op_place(rv_["op"]) if rv_["k"] in ("use", "cast") else rv_["place"] if rv_["k"] == "ref" else None
+        return None
+    if not sp and len(once) == 1:
+        # `match line.split_once('\t') { Some((surface, feature)) if !feature.contains('\t') => .. }`
+        k_ = fmt.const_of(rfa, once[0][1]["args"][1])
+        d = (k_ or {}).get("char") or (k_ or {}).get("str")
+        more = False
+        for cb_, ct_ in rfa.calls():
+            if (callee_of(ct_) or {}).get("name") == "contains" and len(ct_["args"]) == 2:
+                kk = fmt.const_of(rfa, ct_["args"][1])
+                if ((kk or {}).get("char") or (kk or {}).get("str")) == d and part_index(ct_["args"][0]) == 1:
+                    more = True
+        ok = d == "\t" and more
+        sp = [(once[0][0], d, once[0][1])]
     ctx.ob("FMT", "corpus|reader|surface<TAB>feature", ok, fn_loc(crate, rp),
            "a corpus line is split at TAB into exactly (surface, feature)" if ok else
            "Corpus::from_reader splits on %r into %d parts" % (d, len(nx)))
@@ -629,6 +664,18 @@ def corpus_format(ctx):
                 okw = derives_from_call(rfa, fl["surface"], nx[0][0]) and \
                     not derives_from_call(rfa, fl["surface"], nx[1][0]) and \
                     derives_from_call(rfa, fl["feature"], nx[1][0])
+    if once and not nx:
+        for b, i, s0 in rfa.stmts():
+            if "rv" in s0 and s0["rv"]["k"] == "agg" and s0["rv"].get("adt") == WORD:
+                fl = dict(zip(s0["rv"]["fields"], s0["rv"]["ops"]))
+                okw = part_index(fl["surface"]) == 0 and part_index(fl["feature"]) == 1
+        for b, t in rfa.calls():
+            c = callee_of(t)
+            cp = (c.get("resolved") or c)["path"] if c else None
+            if cp in crate.fns and crate.fns[cp].body and (t.get("dest_ty") or "") == WORD:
+                m = ctor_fields(E.fa(cp), WORD)
+                if m and {"surface", "feature"} <= set(m) and all(v - 1 < len(t["args"]) for v in m.values()):
+                    okw = part_index(t["args"][m["surface"] - 1]) == 0 and part_index(t["args"][m["feature"] - 1]) == 1
     ctx.ob("FMT", "corpus|reader|first=surface,second=feature", okw, fn_loc(crate, rp),
            "the first part becomes the surface, the second the feature" if okw else
            "surface/feature are not taken from the first/second part of the line")
@@ -639,10 +686,13 @@ def corpus_format(ctx):
         if any(x.endswith("::eq") or x.endswith("::ne") for x in ps):
             for a in t["args"]:
                 k = fmt.const_of(rfa, a)
+                if k is None:
+                    from r_codec import find_const
+                    k = find_const(rfa, a)
                 if k is not None and "str" in k:
                     eos = k["str"]
-    for b, i, s in rfa.stmts():
-        pass
+                elif k is not None and "bytes" in k and "str" in str(k.get("ty", "")):
+                    eos = bytes(k["bytes"]).decode("utf-8", "replace")      # a `&&str` constant
     ctx.ob("FMT", "corpus|reader|terminator", eos == "EOS", fn_loc(crate, rp),
            "a sentence ends at a line equal to %r" % eos)
     # writers
